@@ -380,8 +380,27 @@ func (e *Exec) strLen(s *StrV) *Term {
 	}
 	// structured strings: length is an uninterpreted positive value
 	if s.lenTerm == nil {
+		tc := e.tc
 		s.lenTerm = e.fresh("strlen", BV(64))
-		e.assume(e.tc.And(e.tc.Cmp(OULT, e.tc.Const(64, 0), s.lenTerm), e.tc.Cmp(OULT, s.lenTerm, e.tc.Const(64, 300))))
+		lo, hi := uint64(1), uint64(300)
+		switch s.Kind {
+		case SIPText:
+			// exact length of the rendering
+			s.lenTerm = e.ipTextLen(s.IP)
+			if s.Zone != "" {
+				s.lenTerm = tc.Bin(OAdd, s.lenTerm, tc.Const(64, uint64(1+len(s.Zone))))
+			}
+			return s.lenTerm
+		case SPortText:
+			if s.Num == nil {
+				s.lenTerm = e.decLen(s.Port)
+				return s.lenTerm
+			}
+			lo, hi = 1, 20
+		case SHostPort:
+			lo, hi = 3, 400
+		}
+		e.assume(tc.And(tc.Cmp(OULE, tc.Const(64, lo), s.lenTerm), tc.Cmp(OULE, s.lenTerm, tc.Const(64, hi))))
 	}
 	return s.lenTerm
 }
@@ -448,7 +467,15 @@ func (e *Exec) strBytes(s *StrV) []*Term {
 	case SBytes:
 		return s.B
 	}
-	panic(unsupported{"bytes of structured string"})
+	// structured text: the characters are unconstrained; only the length is known
+	if s.B == nil {
+		n := int(e.concretize(e.strLen(s), "structured string length"))
+		s.B = make([]*Term, n)
+		for i := range s.B {
+			s.B[i] = e.fresh("txt", BV(8))
+		}
+	}
+	return s.B
 }
 
 func (e *Exec) strConcat(a, b *StrV) *StrV {
